@@ -584,3 +584,16 @@ package types
 //@   loop 1
 //@     invariant idx:  -1 <= rangeindex && rangeindex < len(segments)
 //@     invariant made: ss != nil && *ss != nil
+
+// PIN JSON: a PIN is text of at most six decimal digits ("" = no PIN); anything else that is a JSON string is
+// rejected - in particular longer digit strings, whatever their numeric value.
+//@ func (*PIN).UnmarshalJSON
+//@   params p, bytes
+//@   returns err
+//@   requires recv: p != nil
+//@   modifies p
+//@   define S = json.unq(row(bytes), len(bytes))
+//@   define ISSTR = json.isstr(row(bytes), len(bytes))
+//@   ensures long:     ISSTR && len(S) > 6 ==> err != nil
+//@   ensures nondigit: ISSTR && (exists k int :: 0 <= k && k < len(S) && k < 6 && !(48 <= S[k] && S[k] <= 57)) ==> err != nil
+//@   ensures blank:    ISSTR && len(S) == 0 ==> err == nil && *p == 0
